@@ -343,6 +343,10 @@ func Main() {
 	sort.Slice(states, func(i, j int) bool { return states[i] < states[j] })
 	enc.Encode(Report{Kind: "summary", From: *from, To: *to, Counters: n.Counters, States: states,
 		LogHash: fmt.Sprintf("%016x", total.Sum64()), RunHashes: runHashes, Samples: n.Samples})
+	// the C14 workspace (a few schema files under the temp directory) goes with the node
+	if c14ws != nil {
+		os.RemoveAll(c14ws.dir)
+	}
 }
 
 func fatal(err error) {
